@@ -357,6 +357,9 @@ func (m *uiModel) apply(action string) bool {
 				}
 			}
 		}
+	case "offset-up", "offset-down":
+		// scrolls the list by one row; the cursor moves along only if it would leave the window (the scroll
+		// offset is not modelled: the caller allows one position of slack, never a wrap-around)
 	case "jump":
 		m.jumping = true
 	case "change-multi":
@@ -386,7 +389,7 @@ var c09Actions = []string{
 	"up", "down", "first", "last", "pos(3)", "pos(-2)", "pos(0)", "page-up", "page-down", "half-page-up", "half-page-down",
 	"select", "deselect", "toggle", "toggle+down", "toggle+up", "toggle-down", "toggle-up", "toggle-in", "toggle-out", "select-all", "deselect-all",
 	"toggle-all", "clear-selection", "change-multi(2)", "change-multi", "change-multi(0)",
-	"jump", "put(" + c09LongText + ")", "replace-query", "next-selected", "prev-selected",
+	"jump", "put(" + c09LongText + ")", "replace-query", "next-selected", "prev-selected", "offset-up", "offset-down",
 }
 
 // longer than the 1000 runes a query may hold
@@ -520,6 +523,8 @@ func genC09Plan(r *zsim.Rng) *sysPlan {
 		bound = append(bound, kb{c09Keys[i], c09Actions[perm[i]]})
 		p.Args = append(p.Args, "--bind", c09Keys[i]+":"+c09Actions[perm[i]])
 	}
+	// two more ways to close the session
+	p.Args = append(p.Args, "--bind", "f5:accept-or-print-query", "--bind", "f6:accept-non-empty")
 	p.Events = append(p.Events, sysEvent{Kind: "settle"})
 	if feeds > 0 && r.Chance(1, 2) {
 		// make sure something is selected and a query is in force when the next stage arrives
@@ -588,7 +593,7 @@ func genC09Plan(r *zsim.Rng) *sysPlan {
 	}
 	p.Events = append(p.Events, sysEvent{Kind: "settle"})
 	if r.Chance(2, 3) {
-		p.Events = append(p.Events, sysEvent{Kind: "keys", Keys: "enter", Tag: "accept", DelayMs: r.Intn(20)})
+		p.Events = append(p.Events, sysEvent{Kind: "keys", Keys: pick(r, "enter", "enter", "f5", "f6"), DelayMs: r.Intn(20)})
 	}
 	return p
 }
@@ -607,9 +612,10 @@ type c09State struct {
 	syncedAt  int // number of events the model had applied at the last fully successful comparison
 
 	reloadPending bool // reload(GEN 1) was issued; the new input takes over at the next settle
-	stage       int  // input stages the model has seen written
-	tail        int  // --tail
-	cursorLoose bool // the list went through states the model cannot know (trimming): any cursor inside the list is legitimate
+	stage         int  // input stages the model has seen written
+	tail          int  // --tail
+	cursorSlack   int  // offset-up/offset-down since the last comparison: the cursor may have been dragged this far
+	cursorLoose   bool // the list went through states the model cannot know (trimming): any cursor inside the list is legitimate
 }
 
 // window is the range of input records the model expects fzf to hold: everything written so far,
@@ -866,7 +872,7 @@ func c09Settle(r *sysRun, st *c09State, busy bool, final bool) {
 			continue
 		}
 		ev.Tag = tag
-		if ev.Tag == "accept" {
+		if ev.Tag == "accept" || ev.Tag == "accept-or-print-query" || ev.Tag == "accept-non-empty" {
 			st.accepted = true
 			continue
 		}
@@ -895,7 +901,13 @@ func c09Settle(r *sysRun, st *c09State, busy bool, final bool) {
 		if burstQueryChanged && !isEditAction(ev.Tag) {
 			st.listExact = false
 		}
-		if usesListCursor(ev.Tag) && st.cursorLoose {
+		if strings.Contains(ev.Tag, "offset-") {
+			st.cursorSlack++
+		} else if st.cursorSlack > 0 && !isEditAction(ev.Tag) {
+			// cursor actions on top of a cursor that may have been dragged: not followed any further
+			st.cursorLoose = true
+		}
+		if usesListCursor(ev.Tag) && (st.cursorLoose || st.cursorSlack > 0) {
 			// the model has lost track of the list cursor earlier in this burst (a jump label counted from
 			// an unknown scroll offset, a list that was trimmed ...): what this action selects is not known
 			st.exact = false
@@ -1025,8 +1037,16 @@ func c09Settle(r *sysRun, st *c09State, busy bool, final bool) {
 		m.cy = s.Cy
 		c.count("settle.cursor_resynced", 1)
 		r.sim.Logf("c09 settle %d: cursor_resynced", r.settleN)
+	} else if st.cursorSlack > 0 && len(m.list) > 0 {
+		if d := s.Cy - m.cy; d < -st.cursorSlack || d > st.cursorSlack {
+			c.violate("c09.cursor_y", "%s: %d offset-up/offset-down action(s) moved the list cursor from %d to %d (%d results): scrolling drags the cursor by one row at most and never wraps around", pos, st.cursorSlack, m.cy, s.Cy, len(m.list))
+			return
+		}
+		m.cy = s.Cy
+		c.count("probe.offset_action_checked", 1)
 	}
 	st.cursorLoose = false
+	st.cursorSlack = 0
 	if queryChanges >= 2 && len(m.list) > 0 {
 		// Several query changes without a settle in between: whether fzf ever clamped the cursor to one of
 		// the intermediate (shorter) lists depends on timing. Any position inside the list is legitimate;
@@ -1122,7 +1142,38 @@ func maxInt(a, b int) int {
 func c09Exit(r *sysRun, st *c09State) {
 	c := r.c
 	ne := len(r.plan.Events)
-	if !r.done || len(c.viol) > 0 || ne == 0 || eventTag(r.plan, &r.plan.Events[ne-1]) != "accept" || st.syncedAt != ne-1 || !st.exact || !st.listExact {
+	how := ""
+	if ne > 0 {
+		how = eventTag(r.plan, &r.plan.Events[ne-1])
+	}
+	if len(c.viol) > 0 || ne == 0 || (how != "accept" && how != "accept-or-print-query" && how != "accept-non-empty") || st.syncedAt != ne-1 || !st.exact || !st.listExact {
+		return
+	}
+	if nothing := len(st.model.sel) == 0 && len(st.model.list) == 0; nothing && how != "accept" {
+		// nothing to accept: accept-or-print-query prints the query line and ends the session with status 0,
+		// accept-non-empty does nothing at all (the harness ends the session afterwards)
+		if how == "accept-non-empty" {
+			if lo, hi := st.window(r); hi-lo == 0 {
+				// no input at all: the session ends like a plain accept with nothing to print
+				if r.code != ExitNoMatch {
+					c.violate("accept.exit_code", "accept-non-empty on an empty input: exit status %d, expected %d", r.code, ExitNoMatch)
+				}
+				return
+			}
+			if r.code != ExitInterrupt {
+				c.violate("accept.exit_code", "accept-non-empty with nothing to accept: exit status %d (the session should have gone on until the harness aborted it)", r.code)
+			}
+			return
+		}
+		got, _ := splitOut(r.stdout, false)
+		compareOut(c, "accept", got, []string{string(st.model.query)}, "accept-or-print-query with no selection and no result")
+		if r.code != ExitOk {
+			c.violate("accept.exit_code", "accept-or-print-query printed the query but the exit status is %d", r.code)
+		}
+		c.count("probe.print_query_checked", 1)
+		return
+	}
+	if !r.done {
 		return
 	}
 	if r.code != ExitOk && r.code != ExitNoMatch {
